@@ -463,3 +463,6 @@ def validate_cellbytes():
                 raise HarnessError("CellBytes differs from bytes on %r: %r != %r" % (b, got, want))
             n += 1
     return n
+
+
+install_upper_re()
